@@ -68,6 +68,42 @@ func shape(rv reflect.Value) string {
 	return "[" + strings.Join(parts, ",") + "]"
 }
 
+// reshapeTable fills dst (a nested slice of field elements of the same type as src) with stale values in
+// a shape derived from src: every slice at every level is d shorter ("smaller"), as long ("equal") or d
+// longer ("larger") than the corresponding slice of src; slices without a counterpart get length 2.
+func reshapeTable(dst, src reflect.Value, rel string, d int) {
+	stale := int64(0xbad00)
+	var rec func(dv, sv reflect.Value)
+	rec = func(dv, sv reflect.Value) {
+		if dv.Kind() != reflect.Slice {
+			stale++
+			reg.Unflatten(dv.Addr().Interface(), []*big.Int{bi(stale)})
+			return
+		}
+		n := 2
+		if sv.IsValid() {
+			n = sv.Len()
+			switch rel {
+			case "smaller":
+				if n -= d; n < 0 {
+					n = 0
+				}
+			case "larger":
+				n += d
+			}
+		}
+		dv.Set(reflect.MakeSlice(dv.Type(), n, n))
+		for i := 0; i < n; i++ {
+			var child reflect.Value
+			if sv.IsValid() && i < sv.Len() {
+				child = sv.Index(i)
+			}
+			rec(dv.Index(i), child)
+		}
+	}
+	rec(dst, src)
+}
+
 func (c *cx) setG1(t *rapid.T, dst reflect.Value, label string) string {
 	k, _ := c.scalar(t, label)
 	if rapid.IntRange(0, 7).Draw(t, label+"_inf") == 0 {
@@ -125,24 +161,49 @@ func propSerialMultiProofs(t *rapid.T, c *cx, which string) {
 			reg.Flatten(sp.FieldByName("WPrime").Addr().Interface()), shape(sp.FieldByName("ClaimedValues")), s)
 	}
 	src, key, want := mk("a")
-	dst, _, _ := mk("b") // receiver already holds another proof of another shape
-	if rapid.Bool().Draw(t, "fresh_receiver") {
-		dst = pkg.New("OpeningProof")
-	}
 	what := c.name + ": " + which + ".OpeningProof"
 	enc := encode(t, what+".WriteTo", src.(writerTo).WriteTo, want)
-	decode(t, what+".ReadFrom", rk, dst.(readerFrom).ReadFrom, enc)
-	if a, b := view(src), view(dst); a != b {
-		t.Fatalf("%s round trip changed the proof:\n wrote %s\n read  %s", what, a, b)
+	// receivers: a fresh one, and used ones whose tables are smaller than, shaped like, and larger than the
+	// tables being decoded (every slice at every nesting level shortened / kept / extended), filled with other values
+	var recvCls []string
+	for i, wantRel := range relations {
+		dst := pkg.New("OpeningProof")
+		rel := wantRel
+		if wantRel != "fresh" {
+			d := rapid.IntRange(1, 2).Draw(t, fmt.Sprintf("recv%d_d", i))
+			sv, dv := reflect.ValueOf(src).Elem(), reflect.ValueOf(dst).Elem()
+			ssp, dsp := sv, dv
+			if which == "fflonk" {
+				ssp, dsp = sv.FieldByName("SOpeningProof"), dv.FieldByName("SOpeningProof")
+				reshapeTable(dv.FieldByName("ClaimedValues"), sv.FieldByName("ClaimedValues"), wantRel, d)
+			}
+			dsp.FieldByName("W").Set(reflect.ValueOf(c.k.G1Base(bi(77))).Elem())
+			dsp.FieldByName("WPrime").Set(reflect.ValueOf(c.k.G1Base(bi(78))).Elem())
+			reshapeTable(dsp.FieldByName("ClaimedValues"), ssp.FieldByName("ClaimedValues"), wantRel, d)
+			// the relation actually built, measured on the encoded size of the tables
+			switch got := encode(t, what+".WriteTo (receiver)", dst.(writerTo).WriteTo, -1); {
+			case len(got) < len(enc):
+				rel = "smaller"
+			case len(got) > len(enc):
+				rel = "larger"
+			default:
+				rel = "equal"
+			}
+		}
+		decode(t, what+".ReadFrom (receiver "+rel+")", rk, dst.(readerFrom).ReadFrom, enc)
+		if a, b := view(src), view(dst); a != b {
+			t.Fatalf("%s round trip into a %s receiver changed the proof:\n wrote %s\n read  %s", what, rel, a, b)
+		}
+		if re := encode(t, what+" re-encoding", dst.(writerTo).WriteTo, -1); !bytes.Equal(re, enc) {
+			t.Fatalf("%s: re-encoding of the restored proof differs (receiver %s)", what, rel)
+		}
+		recvCls = append(recvCls, "recv:"+which+".OpeningProof:"+rel)
 	}
-	if re := encode(t, what+" re-encoding", dst.(writerTo).WriteTo, -1); !bytes.Equal(re, enc) {
-		t.Fatalf("%s: re-encoding of the restored proof differs", what)
-	}
-	cls := []string{"serial:" + which + ".OpeningProof", "reader:" + rk}
+	cls := append([]string{"serial:" + which + ".OpeningProof", "reader:" + rk}, recvCls...)
 	if strings.Contains(key, "[]") {
 		cls = append(cls, "table:has_empty")
 	}
-	rep.Case(test, fmt.Sprintf("%s %s %s reader=%s", c.name, which, key, rk), true, cls...)
+	rep.Case(test, fmt.Sprintf("%s %s %s reader=%s", c.name, which, key, rk), true, dedup(cls)...)
 
 	// truncation: every proper prefix is an error, never a panic or a silent success
 	cut := rapid.IntRange(0, len(enc)-1).Draw(t, "cut")
